@@ -257,6 +257,10 @@ def _verify(qual, repo, ctx, bound, second_solver, fast, case):
         _a, _b, _c, _d = z3.Ints("a!td b!td c!td d!td")
         st.pc.append(z3.ForAll([_a, _d], z3.Implies(z3.And(_a >= 0, _d > 0), TDIV(_a, _d) >= 0), patterns=[TDIV(_a, _d)]))
         st.pc.append(z3.ForAll([_a, _b, _c, _d], z3.Implies(z3.And(_a >= 0, _b >= 0, _c >= 0, _d > 0), TDIV2(_a, _b, _c, _d) >= 0), patterns=[TDIV2(_a, _b, _c, _d)]))
+        # exact quotients (definition of truncation when the division leaves no remainder)
+        st.pc.append(z3.ForAll([_a, _d], z3.Implies(z3.And(_d > 0, _a % _d == 0), TDIV(_a, _d) == _a / _d), patterns=[TDIV(_a, _d)]))
+        st.pc.append(z3.ForAll([_a, _b, _c, _d], z3.Implies(z3.And(_d > 0, (_a * _b) % _d == 0), TDIV2(_a, _b, _c, _d) == ((_a * _b) / _d) * _c), patterns=[TDIV2(_a, _b, _c, _d)]))
+        st.pc.append(z3.ForAll([_a, _b, _c, _d], z3.Implies(z3.And(_d > 0, (_a * _c) % _d == 0), TDIV2(_a, _b, _c, _d) == ((_a * _c) / _d) * _b), patterns=[TDIV2(_a, _b, _c, _d)]))
         cls = qual.split(".")[0] if qual.split(".")[0] in ctx.sources.classes else None
         st.meta["cls"] = cls
         params = [a.arg for a in fn.args.args] + [a.arg for a in fn.args.kwonlyargs]
@@ -311,6 +315,7 @@ def _verify(qual, repo, ctx, bound, second_solver, fast, case):
                 entry_env[p_] = fz
                 X.notes.append(f"A: parameter list `{p_}` is read-only in {qual} (checked syntactically: never mutated, assigned, stored or passed to a call)")
         X.frozen_locals = Exec.frozen_list_locals(fn)
+        X.private_locals = Exec.private_list_locals(fn)
         pre_pc = list(st.pc)
         exits = X.block(fn.body, st)
         n_normal = 0
